@@ -56,6 +56,7 @@ type histB struct {
 	big                     bool // large concrete fan-out base: keep symbolic probes cheap
 	noSym                   bool // no symbolic update after the base
 	mid                     bool // 9..17 siblings with a symbolic update
+	stem                    int  // F-fan-stem: length of the concrete stem above the fan-out node
 }
 
 func (b histB) scn() *Scenario {
@@ -192,7 +193,8 @@ func fanBytes(m int, seed int64, variant int) []int {
 	used := map[int]bool{}
 	var out []int
 	for _, b := range boundaryBytes {
-		if len(out) < m {
+		// odd variants of small sets are entirely seed-chosen (stale-lane effects depend on the bit patterns)
+		if len(out) < m && !(variant%2 == 1 && m <= 6) {
 			out = append(out, b)
 			used[b] = true
 		}
@@ -268,7 +270,11 @@ func fanShapes(e *Engine, full bool) []fanShape {
 func fFan(c *CheckRun, kind int, nSym int, variants int, full bool) []histB {
 	var out []histB
 	for _, sh := range fanShapes(c.Eng, full) {
-		for v := 0; v < variants; v++ {
+		nv := variants
+		if nv < 2 && sh.m <= 5 && sh.from <= 5 {
+			nv = 2 // small nodes: boundary bytes and a seed-chosen set
+		}
+		for v := 0; v < nv; v++ {
 			base := fanBase(sh.m, sh.from, c.Seed, v, sh.low)
 			label := fmt.Sprintf("F-fan m=%d from=%d v=%d", sh.m, sh.from, v)
 			if sh.low {
@@ -328,10 +334,11 @@ func fFanStem(c *CheckRun, kind int, full bool) []histB {
 		sh fanShape
 		p  int
 	}
-	shapes := []st{{fanShape{m: 17}, 1}, {fanShape{m: 49}, 1}, {fanShape{m: 12, from: 17}, mp + 2}, {fanShape{m: 37, from: 49}, mp + 1}}
+	// the fan-out node holds m sibling children plus the stem key's terminator child: m+1 children
+	shapes := []st{{fanShape{m: 17}, 1}, {fanShape{m: 49}, 1}, {fanShape{m: 11, from: 17}, mp + 2}, {fanShape{m: 36, from: 49}, mp + 1}}
 	if full {
-		shapes = append(shapes, st{fanShape{m: 5}, mp + 2}, st{fanShape{m: 13, from: 17}, mp}, st{fanShape{m: 38, from: 49}, mp + 2}, st{fanShape{m: 48}, mp + 3},
-			st{fanShape{m: 3, from: 5}, mp + 2}, st{fanShape{m: 17}, mp + 2}, st{fanShape{m: 49}, mp + 2}, st{fanShape{m: 2, from: 5}, mp + 1})
+		shapes = append(shapes, st{fanShape{m: 5}, mp + 2}, st{fanShape{m: 12, from: 17}, mp}, st{fanShape{m: 37, from: 49}, mp + 2}, st{fanShape{m: 47}, mp + 3},
+			st{fanShape{m: 2, from: 5}, mp + 2}, st{fanShape{m: 17}, mp + 2}, st{fanShape{m: 49}, mp + 2}, st{fanShape{m: 1, from: 5}, mp + 1}, st{fanShape{m: 36, from: 49}, 3})
 	}
 	for _, s := range shapes {
 		sh, p := s.sh, s.p
@@ -356,10 +363,10 @@ func fFanStem(c *CheckRun, kind int, full bool) []histB {
 		}
 		label := fmt.Sprintf("F-fan-stem m=%d from=%d stem=%d", sh.m, sh.from, p)
 		for _, pr := range []int{cKeyStemOnly(p) | 1<<30, aSpec(p, 1), aSpecMut(p, 1, p-1)} {
-			out = append(out, histB{kind: kind, ops: ops, probes: []int{pr}, label: label, big: true, noSym: true})
+			out = append(out, histB{kind: kind, ops: ops, probes: []int{pr}, label: label, big: true, noSym: true, stem: p})
 		}
 		// one symbolic update under the stem, concrete probe
-		out = append(out, histB{kind: kind, ops: append(append([][2]int(nil), ops...), [2]int{opDelete, aSpec(p, 1)}), probes: []int{cKeyStemOnly(p) | 1<<30}, label: label + " C", big: true})
+		out = append(out, histB{kind: kind, ops: append(append([][2]int(nil), ops...), [2]int{opDelete, aSpec(p, 1)}), probes: []int{cKeyStemOnly(p) | 1<<30}, label: label + " C", big: true, stem: p})
 	}
 	return out
 }
